@@ -573,6 +573,19 @@ class Engine:
             raise OutOfReach("raise of non-name")
         raise PyRaise(name)
 
+    def st_Delete(self, s):
+        for t in s.targets:
+            if isinstance(t, ast.Subscript):
+                base = self.ev(t.value)
+                if base.k in ("opaque", "obj"):
+                    try:
+                        key = self.ev(t.slice)
+                    except OutOfReach:
+                        key = NONE
+                    self.st.calls.setdefault("del:" + ast.unparse(t.value), []).append({"key": key})
+                    continue
+            raise OutOfReach(f"{self.c.key}: del {ast.unparse(t)}")
+
     def st_Assign(self, s):
         v = self.ev(s.value)
         for t in s.targets:
@@ -2234,6 +2247,8 @@ class Engine:
             v = self.ev(n.args[0])
             if v.k in ("tuple", "ilist"):
                 return v
+            if v.k == "opaque":
+                return V("opaque", z3.Const(fresh_name("copy"), opaque_sort(v.cls)), v.cls)      # a snapshot of an unmodelled iterable
             raise OutOfReach(f"list({v.k})")
         if nm == "isinstance":
             v = self.ev(n.args[0])
@@ -2749,6 +2764,8 @@ class Engine:
             self.st.ghost[g] = self.st.ghost.get(g, z3.IntVal(0)) + inc
         self._ext_havoc(summ, args)
         res = self.ext_result(summ, d)
+        if summ.get("record_as") and self.st.calls.get(summ["record_as"]):
+            self.st.calls[summ["record_as"]][-1]["result"] = res
         post = summ.get("post")
         if post:
             env = dict(self.entry.env)       # parameters of the function under verification (visible from inlined frames too)
